@@ -3,8 +3,11 @@
 //! Case lines `C09.<class>.<Trait>.<method> <receiver> <tokens…>`; classes:
 //!   m  invalid argument, the driver runs the Lean model of the operation      -> outcome class must be `err`
 //!   b  non-fitting operand shape, the driver runs the shared broadcasting funnel (`Arr.broadcast`) -> `err`
+//!   x  the MODEL decides (round 5 part 2): the driver runs the model and the real call must fall into its outcome class (ok / err; a panic
+//!      or a model panic always fails) - the three-argument relations of insert along an axis (Arr.insertAxis), Unicode look-alike option names
 //!   u  invalid argument, operation not modelled: the driver answers the constant `err` (class only) — since round 5 only diff,
-//!      unwrap_phase, insert(axis), linspace_a / logspace_a / geomspace_a, eig / eigvals and the failing-closure lines of apply_along_axis;
+//!      unwrap_phase, linspace_a / logspace_a / geomspace_a, eig / eigvals, the failing-closure lines of apply_along_axis and the lines on
+//!      receivers above 2^24 elements (insert(axis) is class m / x since round 5 part 2);
 //!      slice, indices_at, repeat(None), the linalg products, det / qr / solve, norm and every option-name line are class m
 //!      (Driver/C09.lean: runOption / runForeign run the models of C02-ext, C13, C14, C15, C10, C19 and the table parsers)
 //!   o  region the statement leaves open (tolerated/clamped arguments): only `panic`/`hang` is a failure
@@ -728,6 +731,30 @@ fn gen_static_total(g: &mut Gen) {
     for nd in ["0", "1", "5", "64"] { g.e("t", "ArrayCreate", "create", &[2, 3], &[st("6"), st("2,3"), st(nd)]); }
 }
 
+/// ROUND 5 (class 16 read for option names: ONE exact value): every documented option name with a letter (pair) replaced by a character
+/// whose Unicode UPPER- or lower-casing is that ASCII letter (pair) - U+017F long s -> S, U+00DF sharp s -> SS, U+0131 dotless i -> I,
+/// the ligatures U+FB06 / U+FB05 -> ST, U+FB02 -> FL, U+FB01 -> FI, U+FB00 -> FF, and U+212A KELVIN SIGN -> k (the one that Rust's
+/// to_lowercase really maps: accepted by the crate and by the model) - in lower case and with the rest in upper case.  A parser that
+/// normalises with another case mapping than the table's accepts some of them.
+fn lookalike_names() -> Vec<String> {
+    let names = ["quicksort", "mergesort", "heapsort", "stable", "equals", "not_equals", "greater", "less", "greater_equal", "less_equal",
+        "big", "little", "inf", "-inf", "fro", "nuc", "full", "valid", "same"];
+    let subs = [("ss", "\u{df}"), ("s", "\u{17f}"), ("i", "\u{131}"), ("st", "\u{fb06}"), ("st", "\u{fb05}"), ("fl", "\u{fb02}"), ("fi", "\u{fb01}"), ("ff", "\u{fb00}"), ("k", "\u{212a}"), ("ss", "\u{1e9e}"), ("i", "\u{130}")];
+    let mut out: Vec<String> = vec![];
+    for n in names { for (from, to) in subs {
+        if !n.contains(from) { continue; }
+        let first = n.replacen(from, to, 1);
+        let all = n.replace(from, to);
+        let last = match n.rfind(from) { Some(p) => format!("{}{}{}", &n[..p], to, &n[p + from.len()..]), None => continue };
+        for v in [first, all, last] {
+            let upper: String = v.chars().map(|c| if c.is_ascii() { c.to_ascii_uppercase() } else { c }).collect();
+            out.push(v); out.push(upper);
+        }
+    } }
+    out.sort(); out.dedup();
+    out
+}
+
 /// names no parser accepts: blank, whitespace, padded, wrong, non-ASCII look-alikes
 const BAD_NAMES: &[&str] = &["", " ", "  ", "\t", "\n", "\u{a0}", "Quick sort", "STABLE ", " stable", "bigg", "ＢＩＧ", "ſtable", "stablé", "ｆｒｏ", "quicksort\u{0}", "İnf", "NUC ", "=>", "sa me", "\u{feff}full"];
 
@@ -1103,6 +1130,24 @@ fn gen_constructor_bands(g: &mut Gen, thorough: bool) {
 fn gen_round5(g: &mut Gen, thorough: bool) {
     g.with("", Only::All);
     gen_constructor_bands(g, thorough);
+    // look-alike option names through the operations that take them (class x: the table parser decides - the Kelvin names are accepted)
+    for suf in ["", "-p"] {
+        g.with(suf, if suf.is_empty() { Only::All } else { Only::ResImpl });
+        for s in [vec![3usize], vec![2, 3]] { for sp in lookalike_names() {
+            let h = hex(&sp);
+            let none = st("none");
+            for fl in ["str", "string"] {
+                g.e("x", "ArraySort", "sort", &s, &[none.clone(), h.clone(), st(fl)]);
+                g.e("x", "ArraySort", "argsort", &s, &[st("0"), h.clone(), st(fl)]);
+                g.e("x", "ArrayStringCompare", "compare", &s, &[l(&s), h.clone(), st(fl)]);
+                g.e("x", "ArrayBinaryBits", "pack_bits", &s, &[none.clone(), h.clone(), st(fl)]);
+                g.e("x", "ArrayBinaryBits", "unpack_bits", &s, &[st("-1"), none.clone(), h.clone(), st(fl)]);
+                g.e("x", "ArrayLinalgNorms", "norm", &s, &[h.clone(), none.clone(), none.clone(), st(fl)]);
+                g.e("x", "ArrayMathMisc", "convolve", &s, &[st("2"), h.clone(), st(fl)]);
+            }
+        } }
+    }
+    g.with("", Only::All);
     gen_giant(g, thorough);
     for s in insert_axis_shapes(thorough) { gen_insert_axis(g, &s, if thorough { 2 } else { 1 }); }
     // zero-size receivers (the model decides; the refusals of class m come before anything looks at the elements) and big ones
@@ -1213,6 +1258,7 @@ fn gen(tier: &str, _seed: u64, out: &mut dyn FnMut(String)) {
     let out = g.out;
     for (p, tr, m) in [("sortKind", "SortKindType", "parse_type"), ("compareOp", "CompareOpType", "parse_type"), ("bitOrder", "BitOrderType", "to_bit_order"), ("normOrd", "NormOrdType", "to_ord"), ("convolveMode", "ConvolveModeType", "to_mode")] {
         for sp in SPELLINGS.iter().chain(BAD_NAMES.iter()) { for fl in ["str", "string"] { out(format!("opt.{p}.{tr}.{m} {} {fl}", hex(sp))); } }
+        for sp in lookalike_names() { for fl in ["str", "string"] { out(format!("opt.{p}.{tr}.{m} {} {fl}", hex(&sp))); } }
     }
     // 6. coverage accounting against the regenerated inventory
     let res: Vec<String> = ents.iter().filter(|e| e.res_impl || (e.tr, e.m) == ("ArrayBroadcast", "broadcast_arrays") || (e.tr, e.m) == ("ArrayBinary", "binary_repr")).map(|e| format!("{}.{}", e.tr, e.m)).collect();
@@ -1367,5 +1413,5 @@ fn nontrivial(op: &str, _args: &[&str]) -> bool { matches!(op.split_once('.').ma
 
 fn main() {
     harness_main(Spec { prop: "C09", gen, exec, nontrivial, hang_secs: 20,
-        rule: "PART 2: invalid axes REPEATED 2/3/4 times inside an axis list, alone and mixed with valid axes in every position (3-5 unsorted entries), through every axis-list argument (flip, squeeze, transpose, moveaxis source/destination/both, roll, rot90, expand_dims relative to the result rank, norm) on 9 (18) receivers incl. [600],[17,16],[2,70,2], the plain receiver, u8/f64/String arrays and zero-size receivers; every invalid-argument class on receivers of rank 5..8 and on HUGE receivers ([20000],[70000],[2,10000],[10000,2],[130,130],[40,30,30],[16385],[2,70000],[10,11,12,13]; thorough +6 up to 140001 elements; also plain / u8 / f64 receivers and the option-name and repeated-axis streams) - left out there: the String traits, vstack/row_stack and delete along an axis (not an early refusal: seconds per call or per model run); hidden state: colliding receiver shapes (equal-count polynomial-hash siblings [2,m]/[1,2m], collision_shape_pairs, permuted axes, lengths equal modulo 2^8) interleaved in both orders through a smoke call of every shape-sensitive method and refused axes / indices / shapes, so that every failing call is directly followed by a valid call on the sibling; A-B-A: after EVERY case the previous case is invoked again and must give the same outcome; closures: apply_along_axis with a closure that returns an error value, that calls apply_along_axis itself (re-entrancy) and whose nested call refuses an axis, 5 receivers / element types; every invalid-argument line of shape [2,3] of the 46 generic methods through i64/u8/f64/String and both receivers back to back; narrowing images c+2^8, c+2^16, c+2^32 of valid axes / indices / coordinates. ROBUSTNESS STREAMS: the invalid-argument classes below also on big receivers ([600],[1030],[4100],[2,600],[600,2],[65,3],[3,65],[2,70,2],[17,16],[70,70],[5,5,5,5]; thorough +10), on every zero_shapes() receiver (class suffix -z), through the plain receiver (-p, all 203 Result-receiver methods) and on u8/f64/String arrays through both receivers (46 generic methods) for 6 (11) shapes incl. [600],[2,600] and 4 zero-size shapes; option names as enum/&str/String: 20 blank / whitespace / padded / non-ASCII names x 9 option-taking calls, valid names in all three spellings combined with an invalid axis / operand; ea = every invalid-argument line of shape [2,3] invoked on Err(e) for 2 (4) of the 23 error values; propagation also through the Result impls at u8/f64/String; each m/b/u call made twice. BASE: every method of the regenerated inventory is registered once (inv.* lines compare the registry with Tables.lean); classes: p = 205 Result-receiver methods x 23 error values (15 variants, payload and empty payload); m/b/u = arguments the statement calls invalid (axis = rank, rank+1, isize::MAX, -rank-1, isize::MIN, +-1000 at every position; wrong-length axis/coordinate lists; index = bound, bound+1, usize::MAX; non-fitting shapes; zero parts; unknown option names) on 16 shapes of rank 1..4 (quick) / all shapes rank<=4 len<=3 + 4 larger (thorough); opt = 80 spellings x 5 parsers x {&str,String}; n/t = smoke and extreme values (only panic fails); o = open regions. distinct = distinct case lines; non-trivial = classes m,b,u,p,ea,opt (any suffix)" });
+        rule: "ROUND 5: insert(indices, values, Some(axis)) answered by the Lean model Arr.insertAxis - class m for axis outside the rank / index above the bound / values rank outside 1..=rank, class x (the model decides ok or err) for the three-argument relations: 1-3 indices (sorted, unsorted, repeated, at the bound, empty) x 0..=7 rows of the values x other axes match / 1 / divisor / non-divisor / too long / zero, every axis, ranks 1-3 (thorough 4), zero-size and big receivers up to 1 200 elements, both receivers, u8 / f64 / String; Unicode look-alike option names (long s, sharp s, dotless i, ligatures, Kelvin sign) through the 5 parsers and 7 operations; receivers above 2^24 elements (u8, class u); constructor spans 2^31..2^62 (class t). PART 2: invalid axes REPEATED 2/3/4 times inside an axis list, alone and mixed with valid axes in every position (3-5 unsorted entries), through every axis-list argument (flip, squeeze, transpose, moveaxis source/destination/both, roll, rot90, expand_dims relative to the result rank, norm) on 9 (18) receivers incl. [600],[17,16],[2,70,2], the plain receiver, u8/f64/String arrays and zero-size receivers; every invalid-argument class on receivers of rank 5..8 and on HUGE receivers ([20000],[70000],[2,10000],[10000,2],[130,130],[40,30,30],[16385],[2,70000],[10,11,12,13]; thorough +6 up to 140001 elements; also plain / u8 / f64 receivers and the option-name and repeated-axis streams) - left out there: the String traits, vstack/row_stack and delete along an axis (not an early refusal: seconds per call or per model run); hidden state: colliding receiver shapes (equal-count polynomial-hash siblings [2,m]/[1,2m], collision_shape_pairs, permuted axes, lengths equal modulo 2^8) interleaved in both orders through a smoke call of every shape-sensitive method and refused axes / indices / shapes, so that every failing call is directly followed by a valid call on the sibling; A-B-A: after EVERY case the previous case is invoked again and must give the same outcome; closures: apply_along_axis with a closure that returns an error value, that calls apply_along_axis itself (re-entrancy) and whose nested call refuses an axis, 5 receivers / element types; every invalid-argument line of shape [2,3] of the 46 generic methods through i64/u8/f64/String and both receivers back to back; narrowing images c+2^8, c+2^16, c+2^32 of valid axes / indices / coordinates. ROBUSTNESS STREAMS: the invalid-argument classes below also on big receivers ([600],[1030],[4100],[2,600],[600,2],[65,3],[3,65],[2,70,2],[17,16],[70,70],[5,5,5,5]; thorough +10), on every zero_shapes() receiver (class suffix -z), through the plain receiver (-p, all 203 Result-receiver methods) and on u8/f64/String arrays through both receivers (46 generic methods) for 6 (11) shapes incl. [600],[2,600] and 4 zero-size shapes; option names as enum/&str/String: 20 blank / whitespace / padded / non-ASCII names x 9 option-taking calls, valid names in all three spellings combined with an invalid axis / operand; ea = every invalid-argument line of shape [2,3] invoked on Err(e) for 2 (4) of the 23 error values; propagation also through the Result impls at u8/f64/String; each m/b/u call made twice. BASE: every method of the regenerated inventory is registered once (inv.* lines compare the registry with Tables.lean); classes: p = 205 Result-receiver methods x 23 error values (15 variants, payload and empty payload); m/b/u = arguments the statement calls invalid (axis = rank, rank+1, isize::MAX, -rank-1, isize::MIN, +-1000 at every position; wrong-length axis/coordinate lists; index = bound, bound+1, usize::MAX; non-fitting shapes; zero parts; unknown option names) on 16 shapes of rank 1..4 (quick) / all shapes rank<=4 len<=3 + 4 larger (thorough); opt = 80 spellings x 5 parsers x {&str,String}; n/t = smoke and extreme values (only panic fails); o = open regions. distinct = distinct case lines; non-trivial = classes m,b,u,x,p,ea,opt (any suffix)" });
 }
